@@ -377,6 +377,10 @@ class SymbolicExpression(Generic[T], ABC):
         return Not(self)
 
     def __enter__(self) -> Self:
+        # The tree is about to be edited: the parents that were recorded by an earlier evaluation describe the tree as
+        # it was then, from here on the structural parents count.
+        for expression in self._root_._all_nodes_:
+            expression._eval_parent_ = None
         node = self
         if (node is self._root_) or (node._parent_ is self._root_):
             node = node._conditions_root_
